@@ -73,7 +73,7 @@ TESTED_NOT_PROVED = [
     "explicit_hydrogen=True exports of graphs with implicit hydrogens; core=False (full) exports on ITS graphs outside its_ok; h_to_explicit "
     "with its=True beyond the total count: correspondence + oracle only",
 ]
-LEVEL_TEXT = ("Machine-checked proof (Coq, 18 theorems, closed under the global context) over an executable model of the GML writer/reader at "
+LEVEL_TEXT = ("Machine-checked proof (Coq, 23 theorems, closed under the global context) over an executable model of the GML writer/reader at "
               "record level, of its_to_gml / gml_to_its / smart_to_gml / get_rc / its_decompose / ITSGraph at graph level, of h_to_explicit / "
               "h_to_implicit, and of the attribute copying of MolToGraph / GraphToMol: label round trip for every element symbol and every "
               "charge; ITS -> GML -> ITS restores atoms, both-side charges and (before, after) orders for every reaction-centre-shaped ITS, "
@@ -340,7 +340,9 @@ def mol_record(smiles):
                 Chem.SanitizeMol(mol)
                 rec = {"atoms": [[a.GetSymbol(), bool(a.GetIsAromatic()), int(a.GetTotalNumHs()), int(a.GetFormalCharge()),
                                   int(a.GetAtomMapNum())] for a in mol.GetAtoms()],
-                       "bonds": [[b.GetBeginAtomIdx(), b.GetEndAtomIdx(), _half(b.GetBondTypeAsDouble())] for b in mol.GetBonds()]}
+                       "bonds": [[b.GetBeginAtomIdx(), b.GetEndAtomIdx(), _half(b.GetBondTypeAsDouble())] for b in mol.GetBonds()],
+                       "abonds": [[[b.GetOtherAtomIdx(a.GetIdx()), _half(b.GetBondTypeAsDouble())] for b in a.GetBonds()]
+                                  for a in mol.GetAtoms()]}
         except Exception:
             rec = None
         _MREC[smiles] = rec
@@ -364,6 +366,18 @@ def _mg_obs(smiles):
             wm = []
         out.append([gr_ord_obs(G), wm])
     return out
+
+
+def _py_rdmol_ok(rec):
+    """independent definition of the model's rdmol_ok (the contract about RDKit output behind C10_rsmi_graph_mol_ok)"""
+    if rec is None:
+        return False
+    n = len(rec["atoms"])
+    maps = [a[4] for a in rec["atoms"] if a[4] != 0]
+    pairs = [frozenset(b[:2]) for b in rec["bonds"]]
+    return (all(re.fullmatch(r"[A-Za-z*]+", a[0]) for a in rec["atoms"]) and all(b[2] in (2, 3, 4, 6) for b in rec["bonds"])
+            and len(set(maps)) == len(maps) and all(m > 0 for m in maps)
+            and all(b[0] < n and b[1] < n and b[0] != b[1] for b in rec["bonds"]) and len(set(pairs)) == len(pairs))
 
 
 def enc_mol(rec):
@@ -476,7 +490,7 @@ def impl(case):
         g = mol_graph(case["smiles"])
         if g is None:
             return ["NOGRAPH"]
-        return [_hx_obs(to_nx(g), None, False), _mg_obs(case["smiles"])]
+        return [_hx_obs(to_nx(g), None, False), _mg_obs(case["smiles"]), _py_rdmol_ok(mol_record(case["smiles"]))]
     if k == "parse":
         return parsed_obs(rec_to_text(case["rec"]))
     if k == "transform":
@@ -538,7 +552,7 @@ def coq_case(case):
             rec = mol_record(case["smiles"])
             if rec is None:
                 return None
-            return "(let m := %s in L [run_hx3 %s None false; L [%s]])" % (
+            return "(let m := %s in L [run_hx3 %s None false; L [%s]; tbool (rdmol_ok m)])" % (
                 enc_mol(rec), enc_gr(g), "; ".join("run_molgraph m %s %s" % (cbool(d), cbool(u)) for d, u in _MG_CFGS))
         if k == "parse":
             return "run_parse %s" % enc_rec(case["rec"])
@@ -672,6 +686,38 @@ def run_hist(script, judge=None):
         elif op == "obs":
             val = env[st["g"]]
             out.append(gr_ord_obs(val))
+        elif op == "variants":      # the other public builders and the GraphToMol options, on one molecule
+            from rdkit import Chem
+            from synkit.IO.mol_to_graph import MolToGraph
+            from synkit.IO.graph_to_mol import GraphToMol
+            mol = Chem.MolFromSmiles(st["smiles"], sanitize=False)
+            Chem.SanitizeMol(mol)
+            res, val = [], []
+            for d, u in _MG_CFGS:
+                lw = MolToGraph.mol_to_graph(mol, d, True, u)
+                dt = MolToGraph.mol_to_graph(mol, drop_non_aam=d, light_weight=False, use_index_as_atom_map=u)
+                res.append([gr_ord_obs(lw), gr_ord_obs(dt)])
+                val.append((d, u, lw, dt))
+            full = MolToGraph(attr_profile="full", with_topology=True).transform(mol)
+            res.append(gr_ord_obs(full))
+            val.append((False, False, full, full))
+            G = MolToGraph(node_attrs=list(_DEF_ATTRS), edge_attrs=["order"]).transform(mol)
+            for ign, useh in ((True, True), (False, False), (True, False)):
+                try:
+                    rw = GraphToMol().graph_to_mol(G, ign, False, useh)
+                    res.append([[[[a.GetSymbol(), int(a.GetFormalCharge()), int(a.GetAtomMapNum()),
+                                   [int(a.GetNumExplicitHs())] if a.GetNoImplicit() else []] for a in rw.GetAtoms()],
+                                 S([[min(b.GetBeginAtomIdx(), b.GetEndAtomIdx()), max(b.GetBeginAtomIdx(), b.GetEndAtomIdx()),
+                                     _half(b.GetBondTypeAsDouble())] for b in rw.GetBonds()])]])
+                except Exception:
+                    res.append([])
+            out.append(res)
+        elif op == "g2s_pres":      # graph_to_smi(G, preserve_atom_maps=[...]): the implicit_hydrogen path
+            from synkit.IO.chem_converter import graph_to_smi
+            from synkit.Graph.Hyrogen._misc import implicit_hydrogen
+            G = env[st["g"]]
+            val = graph_to_smi(G, preserve_atom_maps=list(st["preserve"]))
+            out.append(_wm_obs(implicit_hydrogen(G, set(st["preserve"]))) if st["preserve"] else _wm_obs(G))
         elif op == "r2g":
             from synkit.IO.chem_converter import rsmi_to_graph
             kw = {}
@@ -776,6 +822,18 @@ def coq_hist(script):
             outs.append("t_gr %s" % v)
         elif op == "obs":
             outs.append("t_gr_ord %s" % env[st["g"]])
+        elif op == "variants":
+            mv = mvar(st["smiles"])
+            rec = mol_record(st["smiles"])
+            ab = clist([clist(["(%s, %s)" % (cN(i), cZ(o)) for i, o in bs]) for bs in rec["abonds"]])
+            parts = ["L [t_gr_ord (mol_to_graph_light %s %s %s %s); t_gr_ord (mol_to_graph %s %s %s)]"
+                     % (mv, ab, cbool(d), cbool(u), mv, cbool(d), cbool(u)) for d, u in _MG_CFGS]
+            parts.append("t_gr_ord (mol_to_graph %s false false)" % mv)
+            parts += ["t_wmol (graph_to_mol_gen %s %s (mol_to_graph %s false false))" % (cbool(i), cbool(u), mv)
+                      for i, u in ((True, True), (False, False), (True, False))]
+            outs.append("L [%s]" % "; ".join(parts))
+        elif op == "g2s_pres":
+            outs.append("t_wmol (graph_to_smi_mol %s %s)" % (env[st["g"]], clist([cZ(x) for x in st["preserve"]])))
         elif op == "r2g":
             sel, ko = _enc_asel(st)
             rs, ps = st["rsmi"].split(">>")
@@ -940,6 +998,28 @@ def _oracle_hist(case):
                 if _heavy_skeleton(val) != _heavy_skeleton(src):
                     fails.append(_fail("H-molecule", "%s: heavy atoms / bonds changed" % tag))
             last_obs[st["as"]] = gr_ord_obs(val)
+        elif op == "variants":
+            for d, u, lw, dt in val:
+                ref = _ref_graph(st["smiles"], d, u, set(_KNOWN), True)
+                if ref is not None:
+                    for nm, G in (("light-weight", lw), ("detailed / full-profile", dt)):
+                        why = _vs_ref(G, ref, set(_KNOWN), True)
+                        if why:
+                            fails.append(_fail("smiles-graph", "%s: %s graph of %r (drop=%s, ui=%s): %s" % (tag, nm, st["smiles"], d, u, why)))
+        elif op == "g2s_pres":
+            if st["g"] in pristine:
+                smi = pristine[st["g"]]
+                prm = Chem.SmilesParserParams()
+                prm.removeHs = False
+                refm = Chem.MolFromSmiles(smi, prm)
+                back = Chem.MolFromSmiles(val, prm) if val is not None else None
+                if refm is not None and (back is None or _canon_nostereo(back, addhs=True) != _canon_nostereo(refm, addhs=True)):
+                    G0 = env[st["g"]]
+                    bare = [n for n, d in G0.nodes(data=True) if d.get("element") == "H" and d.get("atom_map") not in st["preserve"]
+                            and not any(G0.nodes[x].get("element") != "H" for x in G0.neighbors(n))]
+                    fails.append(_fail("smiles-roundtrip", "%s: graph_to_smi(graph of %r, preserve_atom_maps=%r) = %r is another molecule"
+                                       % (tag, smi, st["preserve"], val),
+                                       key="graph_to_smi:preserve_atom_maps:bare-hydrogen-dropped" if (bare and st["preserve"]) else None))
         elif op == "r2g":
             keep, ko = _sel_of(st)
             for side, G in zip(st["rsmi"].split(">>"), val):
@@ -1370,7 +1450,8 @@ def distribution(cases, obss):
             d["mol_sources"][c.get("src", "?")] = d["mol_sources"].get(c.get("src", "?"), 0) + 1
         if k == "label":
             d["charged_labels"] += sum(1 for x in c["charges"] if x)
-        if k == "mol" and isinstance(o, list) and len(o) == 2:
+        if k == "mol" and isinstance(o, list) and len(o) == 3:
+            d["rdmol_ok"] = d.get("rdmol_ok", 0) + (1 if o[2] else 0)
             o = o[0]
         if k in ("hx", "mol") and isinstance(o, list) and len(o) == 4:
             d["h_dom"][str(bool(o[0][4]))] = d["h_dom"].get(str(bool(o[0][4])), 0) + 1
@@ -1563,7 +1644,7 @@ def _rand_record(rng):
 HIST_POOL = ["[NH4+]", "C[N+](C)(C)CC([O-])=O", "c1cc[nH]c1", "[O-]c1ccccc1", "[Fe+3]", "[O-2]", "[Mg+2].[Cl-].[Cl-]",
              "O=C([O-])c1ccc2[nH]ccc2c1", "[CH3:1][CH2:2][OH:3]", "[CH3:11][C:12](=[O:13])[O-:14].[Na+:15]", "C", "[Na+]", "",
              "CC(C)(C)c1ccc(cc1)S(N)(=O)=O", "[NH3+]CC([O-])=O", "OC%10CCCCC%10", "c%10ccc(cc%10)-c%11ccc([N+](=O)[O-])cc%11",
-             "[CH3:10][CH:20]=C", "[H][H]", "[H+]", "[CH2:3]=[CH:1][CH2:2][NH3+:10]", "[Zr+4]", "[P-3]", "[O-]S(=O)(=O)[O-]",
+             "[CH3:10][CH:20]=C", "[H][H]", "[H+]", "[CH2:3]=[CH:1][CH2:2][NH3+:10]", "[Zr+4]", "[P-3]", "[CH3:1][O:2][H:3]", "[H:4][CH2:1][O:2][H:3]", "[H:3][O:2][CH2:1][CH2:5][H:3]", "[O-]S(=O)(=O)[O-]",
              "Cn1cc[n+](C)c1", "C#N", "[C-]#[O+]"]
 
 
@@ -1588,6 +1669,8 @@ def _hist_scripts(smi, other):
         ("selections-permuted-all-none", [dict(op="s2g", smiles=smi, attrs=perm, eattrs=["order", "bar"], **{"as": "a"}), dict(op="s2g", smiles=smi, attrs="ALL", eattrs="ALL", **{"as": "b"}),
                                           dict(op="s2g", smiles=smi, attrs=[], **{"as": "c"}), dict(op="s2g", smiles=smi, eattrs=[], **{"as": "d"}),
                                           dict(op="s2g", smiles=smi, **{"as": "e"}), dict(op="g2m", g="e"), dict(op="g2m", g="d")]),
+        ("builders-and-options", [dict(op="variants", smiles=smi), dict(op="s2g", smiles=smi, **{"as": "a"}), dict(op="g2s_pres", g="a", preserve=[]),
+                                  dict(op="g2s_pres", g="a", preserve=[3]), dict(op="obs", g="a"), dict(op="g2m", g="a")]),
         ("converter-objects-reused", [dict(op="conv", smiles=[smi, other, smi, other]), dict(op="s2g", smiles=smi, **{"as": "a"}), dict(op="g2m", g="a")]),
         # the same converter objects on DIFFERENT molecules of the SAME size and shape
         ("converter-objects-same-size", [dict(op="conv", smiles=["CCO", "CCN", "CC[O-]", "C[NH2+]C", "CC=O", "CCO"]),
@@ -1627,7 +1710,7 @@ def _hist_cases(quick, rng):
                 continue        # does not depend on the SMILES: once
             if not rec["atoms"] and any(st["op"] == "edit" or st.get("nodes") for st in script):
                 continue        # edits address atom 1
-            if quick and rng.random() < 0.4 and nm not in ("reduced-then-default", "default-reduced-default", "converter-objects-same-size"):
+            if quick and rng.random() < 0.4 and nm not in ("reduced-then-default", "default-reduced-default", "converter-objects-same-size", "builders-and-options"):
                 continue
             out.append(dict(kind="hist", script=script, name="hist/%s/%d" % (nm, j)))
     return out
